@@ -749,8 +749,14 @@ def _run(eng, contract, fn, res):
                 if isinstance(raw, (V, PyConst)) and not (isinstance(raw, V) and isinstance(raw.t, Ty.Opt)):
                     val = eng.coerce(raw, contract.returns)
             canary_states.append(s2.clone())
+            extra = {"result": val}
+            # locals named in `expose` are visible to the prover-only postconditions under the name <local>_final
+            # (an existential witness: "there is a set - the one the code built - such that ...")
+            for nm in getattr(contract, "expose", ()):
+                if nm in s2.vars:
+                    extra[nm + "_final"] = s2.vars[nm]
             for j, post in enumerate(list(contract.ensures) + list(contract.ensures_t1)):
-                g = eng.eval_spec(s2, post, {"result": val})
+                g = eng.eval_spec(s2, post, extra)
                 eng.oblige(s2, g, f"postcondition {j}: {post}", "post", None)
         elif isinstance(oc, tuple) and oc[0] == "raise":
             exc = oc[1]
